@@ -78,4 +78,52 @@ theorem spatialTables_consistent :
   refine ⟨by decide, by decide, rfl, rfl, fun _ _ _ _ => ⟨rfl, rfl⟩, fun _ _ _ _ => ⟨rfl, rfl⟩, by norm_num [Gen.refToPixForImageDefaultSliceSpacing],
     by norm_num [Gen.refToImgForImageDefaultSliceSpacing], by norm_num [Gen.iterDefaultSliceSpacing], rfl, rfl, rfl⟩
 
+/-- the channel does not enter the spatial information of a TILED_FULL frame -/
+theorem spatialInfo_channel_independent {ds : ImageDs} {tf : TiledFull} {P : Plane} {z sbs : Option Rat} (h : TiledSlide ds tf P z sbs)
+    (ch ch' pl tr tc : Nat) (hch : ch < tf.channels) (hch' : ch' < tf.channels) (hpl : pl < tf.npl) (htr : tr < tf.ntr) (htc : tc < tf.ntc) :
+    getSpatialInformation ds (some (tf.frameNumber ch pl tr tc)) false = getSpatialInformation ds (some (tf.frameNumber ch' pl tr tc)) false := by
+  rw [spatialInfo_tiled_frame h ch pl tr tc hch hpl htr htc, spatialInfo_tiled_frame h ch' pl tr tc hch' hpl htr htc]
+
+/-- **frame → total pixel matrix as a pixel-to-pixel transformer** (first focal plane, any channel, any tile): `for_images(ds, ds,
+frame_number_from = f, for_total_pixel_matrix_to = True)` exists and maps pixel `(c, r)` of the frame to pixel `(tc·Columns + c,
+tr·Rows + r)` of the total pixel matrix, slice index exactly 0 -/
+theorem forImages_frame_to_total {ds : ImageDs} {tf : TiledFull} {P : Plane} {z sbs : Option Rat} (h : TiledSlide ds tf P z sbs)
+    (hP : P.Valid) (hn : P.nrm.dot P.nrm = 1) (u : String) (hu : ds.frameOfReference = some u)
+    (ch tr tc : Nat) (hch : ch < tf.channels) (hpl : 0 < tf.npl) (htr : tr < tf.ntr) (htc : tc < tf.ntc) :
+    ∃ a, pixToPixForImages ds ds (some (tf.frameNumber ch 0 tr tc)) none false true = .ok a ∧
+      ∀ c r : Rat, a.apply ⟨c, r, 0⟩ = ⟨(((tc : Int) * tf.cols : Int) : Rat) + c, (((tr : Int) * tf.rows : Int) : Rat) + r, 0⟩ := by
+  have hinfo := spatialInfo_tiled_frame h ch 0 tr tc hch hpl htr htc
+  have htot := spatialInfo_total h none
+  set v0 : V3 := ⟨(((tc : Int) * tf.cols : Int) : Rat), (((tr : Int) * tf.rows : Int) : Rat), 0⟩ with hv0
+  set posf := ((P.lift (((0 : Nat) : Rat) * sbs.getD 1)).fwd 1).apply v0 with hposf
+  have hposf' : posf = (P.fwd 1).apply v0 := by
+    rw [hposf, Plane.lift_fwd_apply]
+    generalize (P.fwd 1).apply v0 = w
+    cases w; simp [V3.add]
+  let Q : Plane := Plane.mk posf P.o P.sr P.sc
+  have hQ : Q.Valid := ⟨hP.hr, hP.hc, hP.hn⟩
+  have hsame : SamePlane Q P := by
+    refine ⟨Or.inl rfl, ?_⟩
+    show posf.dot P.nrm = P.pos.dot P.nrm
+    rw [hposf', V3.dot_comm, hv0, fwd_in_plane, V3.dot_comm]
+  obtain ⟨mi, hmi, hev⟩ := pixToPixAffine_eval Q P hQ hP
+  rw [if_pos (hsame.accepted (by show P.nrm.dot P.nrm = 1; exact hn))] at hev
+  have hc := (forImages_eq_constructor ds ds u hu hu (some (tf.frameNumber ch 0 tr tc)) none false true _ _ hinfo htot).1
+  refine ⟨(Aff.mk mi (mi.mulVec P.pos).neg).comp (Q.fwd 1), ?_, ?_⟩
+  · rw [hc]
+    simp only [← hposf, V3.toList_eq_posL posf P.o P.sr P.sc]
+    exact hev
+  · intro c r
+    rw [Aff.comp_apply]
+    have e : (Q.fwd 1).apply ⟨c, r, 0⟩ = (P.fwd 1).apply ⟨v0.x + c, v0.y + r, 0⟩ := by
+      show (Plane.fwd ⟨posf, P.o, P.sr, P.sc⟩ 1).apply ⟨c, r, 0⟩ = _
+      rw [hposf']
+      obtain ⟨⟨px, py, pz⟩, ⟨⟨a1, a2, a3⟩, ⟨b1, b2, b3⟩⟩, sr, sc⟩ := P
+      simp only [Plane.fwd, Aff.apply, M3.mulVec, V3.smul, V3.add, Plane.nrm, V3.cross, V3.mk.injEq]
+      refine ⟨?_, ?_, ?_⟩ <;> ring
+    rw [e]
+    have := Aff.inv_apply_left hmi P.pos ⟨v0.x + c, v0.y + r, 0⟩
+    simp only [Plane.fwd] at this ⊢
+    exact this
+
 end HdVerif.Affine
